@@ -52,7 +52,7 @@ CLASSES = {
 }
 CLASS_NAMES = list(CLASSES)
 
-EXTRAS = ["named_ineq", "user_eq", "lmi_sym", "lmi_nonsym", "lmi_two", "lmi_unsent", "lmi_cross", "partition1", "partition2",
+EXTRAS = ["named_ineq", "user_eq", "lmi_sym", "lmi_nonsym", "lmi_two", "lmi_unsent", "lmi_cross", "lmi_band", "lmi_ndarray_reused", "partition1", "partition2",
           "fn_constraint", "fn_lmi", "fn_lmi_two", "noise", "unused_lmi_class", "same_constraint_twice", "const_metric", "two_metrics", "two_metrics_low", "second_function", "dup_eval", "one_sample_functions"]
 
 
@@ -282,6 +282,30 @@ def build(spec):
             c.lmis["_unsent"] = PSDMatrix([[d0, 1], [1, 5]])      # created, never added
             c.lmis["lmi_sym"] = p.add_psd_matrix([[dn, e], [e, 1]])
             p.set_performance_metric(e + 0.25)
+        elif ex == "lmi_band":
+            # an ACTIVE banded (not block-diagonal) LMI with a structural zero: t^2 <= dn (1 - u^2); metric t + u
+            t_, u_ = Expression(), Expression()
+            c.exprs["e_lmi"], c.exprs["e_band_u"] = t_, u_
+            c.lmis["lmi_band"] = p.add_psd_matrix([[dn, t_, 0], [t_, 1, u_], [0, u_, 1]])
+            p.set_performance_metric(t_ + u_)
+        elif ex == "lmi_ndarray_reused":
+            # two LMIs declared from ONE numpy work array that is refilled between the two declarations
+            e1_, e2_ = Expression(), Expression()
+            c.exprs["e_lmi"], c.exprs["e_buf2"] = e1_, e2_
+            buf = np.empty((2, 2), dtype=object)
+            first = [[dn, e1_], [e1_, 1]]
+            second = [[d0 + 1, e2_], [e2_, 2]]
+            for i_ in range(2):
+                for j_ in range(2):
+                    buf[i_, j_] = first[i_][j_]
+            c.lmis["lmi_buf1"] = p.add_psd_matrix(buf)
+            for i_ in range(2):
+                for j_ in range(2):
+                    buf[i_, j_] = second[i_][j_]
+            c.lmis["lmi_buf2"] = p.add_psd_matrix(buf)
+            c.__dict__.setdefault("declared_lmis", {}).update(lmi_buf1=first, lmi_buf2=second)
+            p.set_performance_metric(e1_ + 0.25)
+            p.add_constraint(e2_ <= 1)
         elif ex == "lmi_cross":
             # a redundant Cauchy-Schwarz LMI whose off-diagonal entry is made of inner products of DIFFERENT leaf points
             a = x0 if ref is None else x0 - ref
